@@ -142,6 +142,9 @@ class Program:
                     tree = ast.parse(src, p)
                 except SyntaxError as e:
                     raise AnalysisError(f'{rel}: does not parse: {e}')
+                from . import canon
+                self.renamed_locals = getattr(self, 'renamed_locals', 0) + \
+                    canon.canonicalise(rel, tree, src=src)
                 self.modules[rel] = tree
                 self.sources[rel] = src
         for rel, tree in self.modules.items():
